@@ -114,6 +114,9 @@ def run_shard(spec, acc):
                             if j == 0 and not fu.name.startswith("uiHeartbeat") and \
                                     rng.random() < (0.5 if thorough else 0.12):
                                 variants.append("flap:%d" % rng.choice([2, 5, 6, 7, 10, 16]))
+                            if j == 0 and rng.random() < (0.5 if thorough else 0.15):
+                                variants.append("quiet:%d" % rng.choice([121, 130, 601, 3601,
+                                                                         86401]))
                             if thorough or rng.random() < 0.25:
                                 variants.append("double:%d:%s" % (
                                     rng.randrange(0, 4),
@@ -173,7 +176,28 @@ def rng_kind(c, rnd):
     return ("read_error", "write_error")[(zlib.crc32(repr(sorted(c.items())).encode()) + rnd) % 2]
 
 
+_QUIET = {}
+
+
 def run_case(acc, c, roles=None):
+    """(variant quiet:<seconds>: the clock the middleware reads - the name `time` in its
+    modules - jumps ahead by that much between the bring-up and the faulted request: a
+    link that fails after a quiet night fails like any other)"""
+    if not c["variant"].startswith("quiet:"):
+        return run_case_(acc, c, roles)
+    from .c12 import JumpClock
+    jc = JumpClock()
+    jc.install()
+    _QUIET["jc"] = jc
+    try:
+        acc.count("link_failures_after_a_quiet_period")
+        return run_case_(acc, c, roles)
+    finally:
+        jc.uninstall()
+        _QUIET.pop("jc", None)
+
+
+def run_case_(acc, c, roles=None):
     from ..stack import Stack
     v1 = c["v1"]
     shape = shape_by_name(c["shape"], v1)
@@ -216,6 +240,8 @@ def run_case(acc, c, roles=None):
             dev.adv_policy = {}
             for k_ in ("hb_back_mode", "hb_exit_mode"):
                 dev.cfg[k_] = shape.devcfg.get(k_)
+        if c["variant"].startswith("quiet:") and "jc" in _QUIET:
+            _QUIET["jc"].offset += float(c["variant"].split(":")[1])
         if shape.post:
             shape.post(dev)
         s.bus.arm({k: fault})
